@@ -12,6 +12,7 @@ sys.path.insert(0, os.path.dirname(os.path.dirname(os.path.abspath(__file__))))
 
 ID = "C15"
 CHECKER = "chk_named"
+THEOREMS = ['C15_term_is_integral_plain', 'C15_term_is_integral_lorch', 'C15_term_is_integral_lorch_window', 'C15_added_term_in_F_to_G', 'C15_zero_when_Qmin_0', 'C15_zero_at_r0_plain', 'C15_zero_at_r0_lorch', 'C15_depends_only_on_Qmin_S0_Qmax']
 RULE = ("all 4 reciprocal inputs x 3 real outputs x Lorch on/off with OmittedXrangeCorrection, Qmin>0 (and Qmin=0), r grids incl. 0; "
         "the difference between the corrected and uncorrected transform is compared with a 200-point Gauss-Legendre integral of the "
         "linear-to-zero model; uniform grids also against the compiled Fortran stog_bit; non-trivial = correction term non-zero; "
